@@ -116,7 +116,14 @@ impl G<'_> {
             25 => pick(self.r, &["={[x, \"\", []]}", "={[x, \"é\", [\"é\", \"\"]]}", "={[x, \"a-é\", [\"日本\"]]}", "={[x, \"-é\"]}", "={[x, [\"😀\"]]}", "={[x, \"ß-\", [\"-\"]]}"]).into(),
             26 => "={[x, 'a-b', ['m-n', 'é']]}".into(),
             27 => "={[x, `t`, [`m`]]}".into(),
-            28 => "={[x, null, undefined]}".into(),
+            28 => pick(
+                self.r,
+                &[
+                    "={[x, null, undefined]}", "={[[x], [y]]}", "={[[x, \"foo\"], [y, \"foo\"], [z, \"bar\"], [w]]}", "={[[x, \"a\"], [y, \"b\"], [z, \"a\"], [u, \"c\"], [v, \"b\"]]}", "={[[x, dyn], [y, dyn], [z, \"s\"], [w, \"s\"], [q]]}",
+                    "={[[x, \"a\", [\"m\"]], [y, \"a\", [\"n\"]], [z, \"b\"], [z2, \"c\"]]}", "={[x, \"arg\", [\"m\", \"n\", \"m\", \"o\", \"n\"]]}",
+                ],
+            )
+            .into(),
             _ => format!("={{{{ a: {} }}}}", self.expr(depth)),
         }
     }
@@ -240,7 +247,7 @@ impl G<'_> {
     }
 
     fn prop_key(&mut self) -> String {
-        pick(self.r, &["a", "b", "c", "foo", "bar", "'quoted'", "'a-b'", "1", "[computed]", "['lit']", "[`tpl`]", "[1]", "onClick", "modelValue", "é", "default", "constructor", "__proto__"]).to_string()
+        pick(self.r, &["a", "b", "c", "a", "b", "foo", "bar", "'quoted'", "'a-b'", "1", "[computed]", "['lit']", "[`tpl`]", "[1]", "onClick", "modelValue", "é", "default", "constructor", "__proto__"]).to_string()
     }
 
     fn type_lit(&mut self, depth: u32) -> String {
@@ -297,7 +304,7 @@ impl G<'_> {
 
     fn emits_ty(&mut self, depth: u32) -> String {
         match self.r.below(12) {
-            0 => "{ (e: 'change'): void; (e: 'update', v: number): void }".into(),
+            0 => pick(self.r, &["{ (e: 'change'): void; (e: 'update', v: number): void }", "{ (e: 'change', v: string): void; (e: 'input'): void; (e: 'change', v: number): void; (e: 'blur'): void; (e: 'input', x: 1): void; (e: 'focus'): void }", "{ change: []; input: [x: number]; change: [y: string]; blur: []; focus: [] }", "(e: 'a' | 'b' | 'a' | 'c' | 'b' | 'd') => void"]).into(),
             1 => "(e: 'a' | 'b') => void".into(),
             2 => "{ change: [v: number]; update: []; 'a-b': [x: string, y?: number] }".into(),
             3 | 4 | 5 => self.type_ref(),
@@ -364,10 +371,10 @@ impl G<'_> {
     }
 
     fn defaults_obj(&mut self) -> String {
-        let n = self.r.below(5);
+        let n = [0, 1, 2, 3, 4, 6, 8][self.r.below(7)];
         let mut m = vec![];
         for _ in 0..n {
-            let k = pick(self.r, &["a", "b", "foo", "bar", "'quoted'", "['lit']", "[dyn]", "['fo' + 'o']", "1", "é"]);
+            let k = pick(self.r, &["a", "b", "a", "foo", "bar", "'quoted'", "['lit']", "[dyn]", "['fo' + 'o']", "1", "'1'", "é", "zz", "yy", "xx", "ww"]);
             m.push(match self.r.below(9) {
                 0..=2 => format!("{k}: {}", self.expr(1)),
                 3 => format!("{k}() {{ return 1 }}"),
@@ -443,7 +450,16 @@ impl G<'_> {
             0..=3 => format!("const v{i} = {};", self.jsx(d)),
             4 => format!("function f{i}(p) {{ return {} }}", self.jsx(d)),
             5 => format!("const g{i} = () => {};", self.jsx(d)),
-            6 => format!("const h{i} = (a = {}) => a;", self.jsx(d)),
+            6 => match self.r.below(8) {
+                0 => format!("const h{i} = (a = {}) => a;", self.jsx(d)),
+                1 => format!("const h{i} = (a = {}) => {{ return a; }};", self.jsx(d)),
+                2 => format!("const h{i} = (a = {}, b = {}) => {{ const c = {}; return [a, b, c]; }};", self.jsx(1), self.jsx(1), self.jsx(d)),
+                3 => format!("const h{i} = ({{ a = {}, b: [c = {}] }}) => {{ return a; }};", self.jsx(d), self.jsx(1)),
+                4 => format!("function h{i}(a = {}, {{ b = {} }} = {{}}) {{ return a; }}", self.jsx(d), self.jsx(1)),
+                5 => format!("const h{i} = {{ m(a = {}) {{ return a; }}, set s(v = {}) {{}} }};", self.jsx(d), self.jsx(1)),
+                6 => format!("async function* h{i}(a = {}) {{ yield {}; const r = await {}; return r; }}", self.jsx(1), self.jsx(d), self.jsx(1)),
+                _ => format!("x = 0; const h{i} = (p = (x = <Comp>{{x}}</Comp>), q = {}) => {{ return () => (x = <B>{{x}}</B>); }};", self.jsx(d)),
+            },
             7 => format!("class C{i} {{ field = {}; static s = {}; method() {{ return {} }} get g() {{ return {} }} }}", self.jsx(1), self.jsx(1), self.jsx(d), self.jsx(1)),
             8 => format!("for (const i of list) {{ out.push({}) }}", self.jsx(d)),
             9 => {
@@ -464,7 +480,14 @@ impl G<'_> {
             17 => format!("function outer{i}() {{ const a = <A>{{f()}}</A>; function inner() {{ return <B>{{g()}}</B> }} return [a, inner, {}] }}", self.jsx(d)),
             18 => format!("switch (k) {{ case 1: {{ r = {}; break }} default: r = {} }}", self.jsx(d), self.jsx(1)),
             19 => format!("try {{ t = {} }} catch (e) {{ t = {} }} finally {{ u = {} }}", self.jsx(1), self.jsx(1), self.jsx(1)),
-            20 => format!("label{i}: while (c) {{ const l = {}; break label{i} }}", self.jsx(d)),
+            20 => match self.r.below(6) {
+                0 => format!("label{i}: while (c) {{ const l = {}; break label{i} }}", self.jsx(d)),
+                1 => format!("const t{i} = `a${{{}}}b`; const u{i} = tag`x${{{}}}`;", self.jsx(d), self.jsx(1)),
+                2 => format!("for (let i = {}; i < n({}); i = next({})) {{ r = {}; }}", self.jsx(1), self.jsx(1), self.jsx(1), self.jsx(d)),
+                3 => format!("const q{i} = ({}, {}); r ??= {}; throw_(typeof {});", self.jsx(1), self.jsx(d), self.jsx(1), self.jsx(1)),
+                4 => format!("const r{i} = (() => {{ const a = {}; return (function (b = {}) {{ return {}; }})(); }})();", self.jsx(1), self.jsx(1), self.jsx(d)),
+                _ => format!("class E{i} extends mix({}) {{ #p = {}; static {{ init({}); }} constructor(a = {}) {{ super(); }} }}", self.jsx(1), self.jsx(1), self.jsx(1), self.jsx(d)),
+            },
             21 | 22 | 23 => format!("{}{};", pick(self.r, &["", "export default ", "const Comp2 = ", "export const Ex = ", "const c = /*#__PURE__*/ "]), self.define_component()),
             24 => format!("function scope{i}() {{ type T0 = {}; interface T1 {} return {} }}", self.ty(2), self.type_lit(2), self.define_component()),
             _ => format!("const typed{i}: {} = {} as {};", self.ty(2), self.jsx(1), self.ty(1)),
